@@ -71,66 +71,106 @@ with named_arms (ar : arms) : bool :=
 
 Definition unwrap (o : option value) : value := match o with Some x => x | None => VList_ [] end.
 
+Fixpoint all_of {A} (P : A -> Prop) (l : list A) : Prop := match l with [] => True | x :: r => P x /\ all_of P r end.
+
+(** the shape of the object a completed strict decode of [t] returns *)
+Fixpoint wsh (t : ty) (v : value) {struct t} : Prop :=
+  match t with
+  | TPrim p => exists z, v = VInt_ (pname p) z
+  | TStruct name isp fs => exists vals, v = VStruct_ (TyN name) vals /\ wsh_fields fs vals
+  | TTpm2bList name szf buf szp e =>
+      exists z l, v = VStruct_ (TyN name) [(szf, Some (VInt_ (pname szp) z)); (buf, Some (VList_ l))] /\ all_of (wsh e) l
+  | TTpm2bStruct name szf buf szp i =>
+      exists z, (v = VStruct_ (TyN name) [(szf, Some (VInt_ (pname szp) z)); (buf, None)] /\ z = 0) \/
+                (exists x, v = VStruct_ (TyN name) [(szf, Some (VInt_ (pname szp) z)); (buf, Some x)] /\ z <> 0 /\ wsh i x)
+  | TUnion name ar => v = VStruct_ (TyN name) [] \/ exists n x, v = VStruct_ (TyN name) [(n, Some x)] /\ wsh_arm ar n x
+  end
+with wsh_fields (fs : fields) (vals : list (string * option value)) {struct fs} : Prop :=
+  match fs with
+  | FNil => vals = []
+  | FPlain n t r => exists x rest, vals = (n, Some x) :: rest /\ wsh t x /\ wsh_fields r rest
+  | FList n e r => exists l rest, vals = (n, Some (VList_ l)) :: rest /\ all_of (wsh e) l /\ wsh_fields r rest
+  | FUnion n _ u r => exists x rest, vals = (n, Some x) :: rest /\ wsh u x /\ wsh_fields r rest
+  end
+with wsh_arm (ar : arms) (n : string) (x : value) {struct ar} : Prop :=
+  match ar with
+  | ANil => False
+  | ACons m _ p r =>
+      if String.eqb m n then
+        match p with
+        | PNone => False
+        | PTy t => wsh t x
+        | PList e _ => exists l, x = VList_ l /\ all_of (wsh e) l
+        end
+      else wsh_arm r n x
+  end.
+
+Lemma all_of_app {A} (P : A -> Prop) a b : all_of P a -> all_of P b -> all_of P (a ++ b).
+Proof. induction a as [|x a IH]; cbn [all_of app]; intros Ha Hb; [exact Hb|]. destruct Ha as [H1 H2]. split; [exact H1|apply IH; assumption]. Qed.
+
 Section ObjEv.
   Variable T : tables.
 
   (** what a completed decode of [t] at [pa] delivers: a value whose events are the trace's *)
-  Definition O_run (f : value -> path -> list event) (m : path -> M (option value)) : Prop :=
-    forall pa s tr s' a, m pa s = (tr, s', Ok a) -> exists v, a = Some v /\ evs_of tr = f v pa.
+  Definition O_run (f : value -> path -> list event) (W : value -> Prop) (m : path -> M (option value)) : Prop :=
+    forall pa s tr s' a, m pa s = (tr, s', Ok a) -> exists v, a = Some v /\ W v /\ evs_of tr = f v pa.
 
-  Lemma elems_obj f body pa : O_run f body ->
+  Lemma all_of_snoc {A} (P : A -> Prop) l x : all_of P l -> P x -> all_of P (l ++ [x]).
+  Proof. intros Hl Hx. apply all_of_app; [exact Hl|]. split; [exact Hx|exact Logic.I]. Qed.
+
+  Lemma elems_obj f W body pa : O_run f W body ->
     forall n i acc s tr s' r,
     iter n (fun st_ : Z * list (option value) => bind (body (pindex pa (fst st_))) (fun v => ret (fst st_ + 1, v :: snd st_))) (i, acc) s = (tr, s', Ok r) ->
-    exists xs, snd r = map Some (rev xs) ++ acc /\ evs_of tr = oe_elems f pa xs i.
+    exists xs, snd r = map Some (rev xs) ++ acc /\ all_of W xs /\ evs_of tr = oe_elems f pa xs i.
   Proof.
     intros Hb. induction n as [|n IHn]; intros i acc s tr s' r E; cbn [iter] in *.
-    - injection E as <- _ <-. exists []. split; reflexivity.
+    - injection E as <- _ <-. exists []. split; [reflexivity|]. split; [exact Logic.I|reflexivity].
     - binv E tr1 s1 st1 X1. destruct st1 as [i1 acc1]. binv X1 tr3 s3 v X3. injection X1 as <- _ <- <-. cbn [fst snd] in *.
-      destruct (Hb _ _ _ _ _ X3) as (x & -> & Hx).
-      destruct (IHn _ _ _ _ _ _ E) as (xs & Hr & Hxs).
-      exists (x :: xs). split; [rewrite Hr; cbn [rev]; rewrite map_app, <- app_assoc; reflexivity|].
+      destruct (Hb _ _ _ _ _ X3) as (x & -> & Wx & Hx).
+      destruct (IHn _ _ _ _ _ _ E) as (xs & Hr & Wxs & Hxs).
+      exists (x :: xs). split; [rewrite Hr; cbn [rev]; rewrite map_app, <- app_assoc; reflexivity|]. split; [split; assumption|].
       rewrite !evs_app, Hx, Hxs. cbn [evs_of oe_elems]. rewrite app_nil_r. reflexivity.
   Qed.
 
-  Lemma array_obj f body lid pa count s tr s' a : O_run f body ->
+  Lemma array_obj f W body lid pa count s tr s' a : O_run f W body ->
     dec_array lid pa count body s = (tr, s', Ok a) ->
-    exists l, a = Some (VList_ l) /\ evs_of tr = oe_list lid f pa (VList_ l).
+    exists l, a = Some (VList_ l) /\ all_of W l /\ evs_of tr = oe_list lid f pa (VList_ l).
   Proof.
     intros Hb E. unfold dec_array in E. binv E tr1 s1 u1 X1. injection X1 as <- <- <-. binv E tr3 s3 r X3. injection E as <- _ <-.
-    assert (Hloop : exists xs, snd r = map Some (rev xs) ++ [] /\ evs_of tr3 = oe_elems f pa xs 0).
+    assert (Hloop : exists xs, snd r = map Some (rev xs) ++ [] /\ all_of W xs /\ evs_of tr3 = oe_elems f pa xs 0).
     { destruct count as [|q|q]; cbn [repZ] in X3.
-      - injection X3 as <- _ <-. exists []. split; reflexivity.
-      - rewrite (rep_iter _ _ q (0, []) s) in X3. apply (elems_obj f body pa Hb _ _ _ _ _ _ _ X3).
-      - injection X3 as <- _ <-. exists []. split; reflexivity. }
-    destruct Hloop as (xs & Hr & Hx). exists xs. rewrite Hr, app_nil_r, <- map_rev, rev_involutive, map_map. cbn [unwrap].
-    split; [rewrite map_id; reflexivity|]. unfold sev. cbn [app evs_of]. rewrite app_nil_r, Hx. reflexivity.
+      - injection X3 as <- _ <-. exists []. split; [reflexivity|]. split; [exact Logic.I|reflexivity].
+      - rewrite (rep_iter _ _ q (0, []) s) in X3. apply (elems_obj f W body pa Hb _ _ _ _ _ _ _ X3).
+      - injection X3 as <- _ <-. exists []. split; [reflexivity|]. split; [exact Logic.I|reflexivity]. }
+    destruct Hloop as (xs & Hr & Wxs & Hx). exists xs. rewrite Hr, app_nil_r, <- map_rev, rev_involutive, map_map. cbn [unwrap].
+    split; [rewrite map_id; reflexivity|]. split; [exact Wxs|]. unfold sev. cbn [app evs_of]. rewrite app_nil_r, Hx. reflexivity.
   Qed.
 
-  Lemma tpm2b_list_obj name szf buf szp lid f body pa s tr s' a : O_run f body -> String.eqb szf buf = false ->
+  Lemma tpm2b_list_obj name szf buf szp lid f W body pa s tr s' a : O_run f W body -> String.eqb szf buf = false ->
     dec_tpm2b_list true name szf buf szp lid body pa s = (tr, s', Ok a) ->
-    exists szv l, a = Some (VStruct_ (TyN name) [(szf, Some szv); (buf, Some (VList_ l))]) /\
-      evs_of tr = ev_node pa (TyN name) :: oe_leaf szv (pchild pa szf) ++ oe_list lid f (pchild pa buf) (VList_ l).
+    exists z l, a = Some (VStruct_ (TyN name) [(szf, Some (VInt_ (pname szp) z)); (buf, Some (VList_ l))]) /\ all_of W l /\
+      evs_of tr = ev_node pa (TyN name) :: oe_leaf (VInt_ (pname szp) z) (pchild pa szf) ++ oe_list lid f (pchild pa buf) (VList_ l).
   Proof.
     intros Hb Hne E. unfold dec_tpm2b_list in E.
     binv E tr1 s1 u1 X1. injection X1 as <- <- <-. binv E tr2 s2 szv X2. cbv zeta in E.
     destruct (dec_prim_obj _ _ _ _ _ _ X2) as (z & -> & Hz).
     binv E tr3 s3 cid X3. injection X3 as <- _ _. binv E tr4 s4 u4 X4. pose proof (quiet_set_constraint _ _ _ _ _ _ _ X4) as ->.
     binv E tr5 s5 u5 X5. injection X5 as <- _ _. binv E tr6 s6 bv X6.
-    destruct (array_obj f body lid _ _ _ _ _ _ Hb X6) as (l & -> & Hl).
+    destruct (array_obj f W body lid _ _ _ _ _ _ Hb X6) as (l & -> & Wl & Hl).
     binv E tr7 s7 u7 X7. pose proof (quiet_assert_done _ _ _ _ _ X7) as ->. injection E as <- _ <-.
-    exists (VInt_ (pname szp) z), l. split; [reflexivity|].
+    exists z, l. split; [reflexivity|]. split; [exact Wl|].
     unfold sev. cbn [app evs_of]. rewrite !evs_app, Hz, Hl. cbn [evs_of oe_leaf app]. rewrite !app_nil_r. reflexivity.
   Qed.
 
   (** ---- the mutual induction over the layout descriptors *)
-  Definition O_ty (t : ty) : Prop := named_ty t = true -> forall sel, O_run (oe_ty T t) (fun pa => dec_ty T true t pa sel false).
+  Definition O_ty (t : ty) : Prop := named_ty t = true -> forall sel, O_run (oe_ty T t) (wsh t) (fun pa => dec_ty T true t pa sel false).
   Definition O_fields (fs : fields) : Prop := named_fields fs = true ->
     forall pa rvals s tr s' vals, dec_fields T true fs pa rvals s = (tr, s', Ok vals) ->
-    exists new, vals = new ++ rvals /\ map fst new = rev (field_names fs) /\
+    exists new, vals = new ++ rvals /\ map fst new = rev (field_names fs) /\ wsh_fields fs (rev new) /\
       forall V, (forall n o, In (n, o) new -> lookupS n V = Some o) -> evs_of tr = oe_fields T fs V pa.
   Definition O_arms (ar : arms) : Prop := named_arms ar = true -> nodupb (arm_names ar) = true ->
     forall uname pa target s tr s' a, dec_arms T true ar uname pa target s = (tr, s', Ok a) ->
-    exists l, a = Some (VStruct_ (TyN uname) l) /\ (l = [] \/ exists x, l = [(target, Some x)]) /\ evs_of tr = oe_arms T ar l pa.
+    exists l, a = Some (VStruct_ (TyN uname) l) /\ (l = [] \/ exists x, l = [(target, Some x)] /\ wsh_arm ar target x) /\ evs_of tr = oe_arms T ar l pa.
   Definition O_armp (p : armp) : Prop := match p with PNone => True | PTy t => O_ty t | PList e _ => O_ty e end.
 
   Lemma nodupb_NoDup l : nodupb l = true -> NoDup l.
@@ -163,21 +203,21 @@ Section ObjEv.
     apply ty_mutind.
     - (* TPrim *)
       intros p _ sel pa s tr s' a E. change (dec_ty T true (TPrim p) pa sel false) with (dec_prim true p pa) in E.
-      destruct (dec_prim_obj _ _ _ _ _ _ E) as (z & -> & Hz). eexists. split; [reflexivity|]. exact Hz.
+      destruct (dec_prim_obj _ _ _ _ _ _ E) as (z & -> & Hz). eexists. split; [reflexivity|]. split; [exists z; reflexivity|exact Hz].
     - (* TStruct *)
       intros name isp fs IH Hn sel pa s tr s' a E. cbn [named_ty] in Hn. apply andb_prop in Hn as [Hd Hn].
       rewrite dec_ty_struct in E. cbn [andb] in E. cbv zeta in E.
       binv E tr1 s1 u1 X1. injection X1 as <- <- <-. binv E tr3 s3 vals X3. injection E as <- _ <-.
-      destruct (IH Hn pa [] s tr3 s3 vals X3) as (new & -> & Hf & Hv).
-      eexists. split; [reflexivity|]. rewrite app_nil_r. unfold sev. cbn [app evs_of oe_ty]. rewrite app_nil_r. f_equal.
+      destruct (IH Hn pa [] s tr3 s3 vals X3) as (new & -> & Hf & Wf & Hv).
+      eexists. split; [reflexivity|]. rewrite app_nil_r. split; [exists (rev new); split; [reflexivity|exact Wf]|]. unfold sev. cbn [app evs_of oe_ty]. rewrite app_nil_r. f_equal.
       apply Hv. intros n o Hi. apply lookup_nodup; [|apply in_rev in Hi; exact Hi].
       rewrite map_rev, Hf, rev_involutive. apply nodupb_NoDup, Hd.
     - (* TTpm2bList *)
       intros name szf buf szp e IH Hn sel pa s tr s' a E. cbn [named_ty] in Hn. apply andb_prop in Hn as [Hne Hn].
       rewrite dec_ty_tpm2b_list in E.
-      destruct (tpm2b_list_obj name szf buf szp (list_id e) (oe_ty T e) (fun p => dec_ty T true e p None false) pa s tr s' a (IH Hn None)
-                  ltac:(destruct (String.eqb szf buf); [discriminate|reflexivity]) E) as (szv & l & -> & Hev).
-      eexists. split; [reflexivity|]. rewrite Hev. cbn [oe_ty lookupS]. rewrite String.eqb_refl.
+      destruct (tpm2b_list_obj name szf buf szp (list_id e) (oe_ty T e) (wsh e) (fun p => dec_ty T true e p None false) pa s tr s' a (IH Hn None)
+                  ltac:(destruct (String.eqb szf buf); [discriminate|reflexivity]) E) as (z & l & -> & Wl & Hev).
+      eexists. split; [reflexivity|]. split; [exists z, l; split; [reflexivity|exact Wl]|]. rewrite Hev. cbn [oe_ty lookupS]. rewrite String.eqb_refl.
       replace (String.eqb buf szf) with false by (rewrite String.eqb_sym; destruct (String.eqb szf buf); [discriminate|reflexivity]).
       rewrite String.eqb_refl. reflexivity.
     - (* TTpm2bStruct *)
@@ -188,47 +228,47 @@ Section ObjEv.
       destruct (dec_prim_obj _ _ _ _ _ _ X2) as (z & -> & Hz). cbn [as_int] in E.
       binv E tr3 s3 cid X3. injection X3 as <- _ _. binv E tr4 s4 u4 X4. pose proof (quiet_set_constraint _ _ _ _ _ _ _ X4) as ->.
       binv E tr5 s5 u5 X5. injection X5 as <- _ _.
-      destruct (z =? 0).
+      destruct (z =? 0) eqn:Ez.
       + binv E tr6 s6 u6 X6. injection X6 as <- _ _. binv E tr7 s7 u7 X7. pose proof (quiet_assert_done _ _ _ _ _ X7) as ->. injection E as <- _ <-.
-        eexists. split; [reflexivity|]. unfold sev. cbn [app evs_of]. rewrite !evs_app, Hz. cbn [evs_of app oe_ty lookupS].
+        eexists. split; [reflexivity|]. split; [exists z; left; split; [reflexivity|apply Z.eqb_eq; exact Ez]|]. unfold sev. cbn [app evs_of]. rewrite !evs_app, Hz. cbn [evs_of app oe_ty lookupS].
         rewrite String.eqb_refl, Hbs, String.eqb_refl. reflexivity.
-      + rewrite catch_true in E. binv E tr6 s6 bv X6. destruct (IH Hn None _ _ _ _ _ X6) as (x & -> & Hx).
+      + rewrite catch_true in E. binv E tr6 s6 bv X6. destruct (IH Hn None _ _ _ _ _ X6) as (x & -> & Wx & Hx).
         binv E tr7 s7 u7 X7. pose proof (quiet_assert_done _ _ _ _ _ X7) as ->. injection E as <- _ <-.
-        eexists. split; [reflexivity|]. unfold sev. cbn [app evs_of]. rewrite !evs_app, Hz, Hx. cbn [evs_of app oe_ty lookupS].
+        eexists. split; [reflexivity|]. split; [exists z; right; exists x; split; [reflexivity|]; split; [apply Z.eqb_neq; exact Ez|exact Wx]|]. unfold sev. cbn [app evs_of]. rewrite !evs_app, Hz, Hx. cbn [evs_of app oe_ty lookupS].
         rewrite String.eqb_refl, Hbs, String.eqb_refl, !app_nil_r. reflexivity.
     - (* TUnion *)
       intros name ar IH Hn sel pa s tr s' a E. cbn [named_ty] in Hn. apply andb_prop in Hn as [Hd Hn].
       rewrite dec_ty_union in E. binv E tr1 s1 u1 X1. injection X1 as <- <- <-.
       destruct (select_arm ar sel) as [[n p]|]; [|destruct sel as [[tn z]|]; discriminate].
-      destruct (IH Hn Hd name pa n s _ s' a E) as (l & -> & _ & Hl).
-      eexists. split; [reflexivity|]. unfold sev. cbn [app evs_of oe_ty]. rewrite Hl. reflexivity.
+      destruct (IH Hn Hd name pa n s _ s' a E) as (l & -> & Wl & Hl).
+      eexists. split; [reflexivity|]. split; [destruct Wl as [->|(x & -> & Wx)]; [left; reflexivity|right; exists n, x; split; [reflexivity|exact Wx]]|]. unfold sev. cbn [app evs_of oe_ty]. rewrite Hl. reflexivity.
     - (* FNil *)
-      intros _ pa rvals s tr s' vals E. cbn [dec_fields] in E. injection E as <- _ <-. exists []. split; [reflexivity|]. split; [reflexivity|]. intros; reflexivity.
+      intros _ pa rvals s tr s' vals E. cbn [dec_fields] in E. injection E as <- _ <-. exists []. split; [reflexivity|]. split; [reflexivity|]. split; [reflexivity|]. intros; reflexivity.
     - (* FPlain *)
       intros n t IHt r IHr Hn pa rvals s tr s' vals E. cbn [named_fields] in Hn. apply andb_prop in Hn as [Hnt Hnr].
-      rewrite dec_fields_plain in E. binv E tr1 s1 v X1. destruct (IHt Hnt None _ _ _ _ _ X1) as (x & -> & Hx).
-      destruct (IHr Hnr pa _ s1 _ s' vals E) as (new & -> & Hf & Hv).
+      rewrite dec_fields_plain in E. binv E tr1 s1 v X1. destruct (IHt Hnt None _ _ _ _ _ X1) as (x & -> & Wx & Hx).
+      destruct (IHr Hnr pa _ s1 _ s' vals E) as (new & -> & Hf & Wf & Hv).
       exists (new ++ [(n, Some x)]). split; [rewrite <- app_assoc; reflexivity|].
-      split; [rewrite map_app, Hf; reflexivity|]. intros V HV. rewrite evs_app, Hx. cbn [oe_fields].
+      split; [rewrite map_app, Hf; reflexivity|]. split; [rewrite rev_app_distr; cbn [rev app wsh_fields]; exists x, (rev new); split; [reflexivity|split; assumption]|]. intros V HV. rewrite evs_app, Hx. cbn [oe_fields].
       rewrite (HV n (Some x)) by (apply in_or_app; right; left; reflexivity). f_equal.
       apply Hv. intros m o Hi. apply HV. apply in_or_app. left. exact Hi.
     - (* FList *)
       intros n e IHe r IHr Hn pa rvals s tr s' vals E. cbn [named_fields] in Hn. apply andb_prop in Hn as [Hne Hnr].
       rewrite dec_fields_list in E. destruct (last_nonlist rvals) as [cv|]; [|discriminate]. destruct (as_int cv) as [count|]; [|discriminate].
       binv E tr1 s1 v X1.
-      destruct (array_obj (oe_ty T e) (fun p => dec_ty T true e p None false) (list_id e) _ count _ _ _ _ (IHe Hne None) X1) as (l & -> & Hl).
-      destruct (IHr Hnr pa _ s1 _ s' vals E) as (new & -> & Hf & Hv).
+      destruct (array_obj (oe_ty T e) (wsh e) (fun p => dec_ty T true e p None false) (list_id e) _ count _ _ _ _ (IHe Hne None) X1) as (l & -> & Wl & Hl).
+      destruct (IHr Hnr pa _ s1 _ s' vals E) as (new & -> & Hf & Wf & Hv).
       exists (new ++ [(n, Some (VList_ l))]). split; [rewrite <- app_assoc; reflexivity|].
-      split; [rewrite map_app, Hf; reflexivity|]. intros V HV. rewrite evs_app, Hl. cbn [oe_fields].
+      split; [rewrite map_app, Hf; reflexivity|]. split; [rewrite rev_app_distr; cbn [rev app wsh_fields]; exists l, (rev new); split; [reflexivity|split; assumption]|]. intros V HV. rewrite evs_app, Hl. cbn [oe_fields].
       rewrite (HV n (Some (VList_ l))) by (apply in_or_app; right; left; reflexivity). f_equal.
       apply Hv. intros m o Hi. apply HV. apply in_or_app. left. exact Hi.
     - (* FUnion *)
       intros n seln u IHu r IHr Hn pa rvals s tr s' vals E. cbn [named_fields] in Hn. apply andb_prop in Hn as [Hnu Hnr].
       rewrite dec_fields_union in E. destruct (lookupS seln rvals) as [sv|]; [|discriminate]. destruct (as_typed_int sv) as [tz|]; [|discriminate].
-      binv E tr1 s1 v X1. destruct (IHu Hnu (Some tz) _ _ _ _ _ X1) as (x & -> & Hx).
-      destruct (IHr Hnr pa _ s1 _ s' vals E) as (new & -> & Hf & Hv).
+      binv E tr1 s1 v X1. destruct (IHu Hnu (Some tz) _ _ _ _ _ X1) as (x & -> & Wx & Hx).
+      destruct (IHr Hnr pa _ s1 _ s' vals E) as (new & -> & Hf & Wf & Hv).
       exists (new ++ [(n, Some x)]). split; [rewrite <- app_assoc; reflexivity|].
-      split; [rewrite map_app, Hf; reflexivity|]. intros V HV. rewrite evs_app, Hx. cbn [oe_fields].
+      split; [rewrite map_app, Hf; reflexivity|]. split; [rewrite rev_app_distr; cbn [rev app wsh_fields]; exists x, (rev new); split; [reflexivity|split; assumption]|]. intros V HV. rewrite evs_app, Hx. cbn [oe_fields].
       rewrite (HV n (Some x)) by (apply in_or_app; right; left; reflexivity). f_equal.
       apply Hv. intros m o Hi. apply HV. apply in_or_app. left. exact Hi.
     - (* ANil *)
@@ -241,17 +281,17 @@ Section ObjEv.
       + apply String.eqb_eq in Et. subst target.
         destruct p as [|t|e [cnt|]].
         * injection E as <- _ <-. exists []. split; [reflexivity|]. split; [left; reflexivity|]. rewrite oe_arms_nil. reflexivity.
-        * binv E tr1 s1 v X1. injection E as <- _ <-. destruct (IHp Hnp None _ _ _ _ _ X1) as (x & -> & Hx).
-          exists [(n, Some x)]. split; [reflexivity|]. split; [right; eexists; reflexivity|].
+        * binv E tr1 s1 v X1. injection E as <- _ <-. destruct (IHp Hnp None _ _ _ _ _ X1) as (x & -> & Wx & Hx).
+          exists [(n, Some x)]. split; [reflexivity|]. split; [right; eexists; split; [reflexivity|cbn [wsh_arm]; rewrite String.eqb_refl; exact Wx]|].
           rewrite app_nil_r, Hx. cbn [oe_arms lookupS]. rewrite String.eqb_refl, (oe_arms_other r n _ pa Hnotin), app_nil_r. reflexivity.
         * binv E tr1 s1 v X1. injection E as <- _ <-.
-          destruct (array_obj (oe_ty T e) (fun p => dec_ty T true e p None false) (list_id e) _ cnt _ _ _ _ (IHp Hnp None) X1) as (l & -> & Hl).
-          exists [(n, Some (VList_ l))]. split; [reflexivity|]. split; [right; eexists; reflexivity|].
+          destruct (array_obj (oe_ty T e) (wsh e) (fun p => dec_ty T true e p None false) (list_id e) _ cnt _ _ _ _ (IHp Hnp None) X1) as (l & -> & Wl & Hl).
+          exists [(n, Some (VList_ l))]. split; [reflexivity|]. split; [right; eexists; split; [reflexivity|cbn [wsh_arm]; rewrite String.eqb_refl; exists l; split; [reflexivity|exact Wl]]|].
           rewrite app_nil_r, Hl. cbn [oe_arms lookupS]. rewrite String.eqb_refl, (oe_arms_other r n _ pa Hnotin), app_nil_r. reflexivity.
         * discriminate.
       + destruct (IHr Hnr Hd2 uname pa target s tr s' a E) as (l & -> & Hl & Hev).
-        exists l. split; [reflexivity|]. split; [exact Hl|]. rewrite Hev. cbn [oe_arms].
-        destruct Hl as [->|(x & ->)]; cbn [lookupS]; [reflexivity|]. rewrite Et. reflexivity.
+        exists l. split; [reflexivity|]. split; [destruct Hl as [->|(x & -> & Wx)]; [left; reflexivity|right; exists x; split; [reflexivity|cbn [wsh_arm]; rewrite Et; exact Wx]]|]. rewrite Hev. cbn [oe_arms].
+        destruct Hl as [->|(x & -> & _)]; cbn [lookupS]; [reflexivity|]. rewrite Et. reflexivity.
     - exact Logic.I.
     - intros t IH. exact IH.
     - intros e IH n. exact IH.
@@ -262,6 +302,38 @@ End ObjEv.
 Definition msg_named (T : tables) : bool :=
   forallb (fun kt => named_ty (snd kt)) (cmd_handles T ++ cmd_params T ++ rsp_handles T ++ rsp_params T) &&
   named_ty (t_auth_cmd T) && named_ty (t_auth_rsp T) && named_ty (t_enc_param T).
+
+(** the shape of a parameter area decoded with the opaque first parameter *)
+Definition enc_shape (T : tables) (pty : ty) (v : value) : Prop :=
+  match pty, t_enc_param T with
+  | TStruct name isp (FPlain n t r), TTpm2bList ename eszf ebuf eszp (TPrim ep) =>
+      exists z l rest,
+        v = VStruct_ (TyEnc name) ((n, Some (VStruct_ (TyN ename) [(eszf, Some (VInt_ (pname eszp) z)); (ebuf, Some (VList_ l))])) :: rest) /\
+        all_of (wsh (TPrim ep)) l /\ wsh_fields r rest
+  | _, _ => False
+  end.
+Definition wshp (T : tables) (pty : ty) (v : value) : Prop := wsh pty v \/ enc_shape T pty v.
+
+(** the shape of the objects the message decoders return *)
+Definition cmd_shape (T : tables) (v : value) : Prop :=
+  exists tagn tagz szn szz ccn cc hty hx pty pv,
+    lookupZ cc (cmd_handles T) = Some hty /\ lookupZ cc (cmd_params T) = Some pty /\ wsh hty hx /\ wshp T pty pv /\
+    (v = VStruct_ (TyN "Command") [("tag", Some (VInt_ tagn tagz)); ("commandSize", Some (VInt_ szn szz)); ("commandCode", Some (VInt_ ccn cc));
+                                    ("handles", Some hx); ("parameters", Some pv)] \/
+     exists asn asz l, all_of (wsh (t_auth_cmd T)) l /\
+       v = VStruct_ (TyN "Command") [("tag", Some (VInt_ tagn tagz)); ("commandSize", Some (VInt_ szn szz)); ("commandCode", Some (VInt_ ccn cc));
+                                      ("handles", Some hx); ("authSize", Some (VInt_ asn asz)); ("authorizationArea", Some (VList_ l));
+                                      ("parameters", Some pv)]).
+Definition rsp_shape (T : tables) (cc : option Z) (v : value) : Prop :=
+  exists tagn tagz szn szz rcn rc,
+    v = VStruct_ (TyN "Response") [("tag", Some (VInt_ tagn tagz)); ("responseSize", Some (VInt_ szn szz)); ("responseCode", Some (VInt_ rcn rc))] \/
+    exists c hty hx pty px, cc = Some c /\ lookupZ c (rsp_handles T) = Some hty /\ lookupZ c (rsp_params T) = Some pty /\ wshp T hty hx /\ wshp T pty px /\
+      (v = VStruct_ (TyN "Response") [("tag", Some (VInt_ tagn tagz)); ("responseSize", Some (VInt_ szn szz)); ("responseCode", Some (VInt_ rcn rc));
+                                       ("handles", Some hx); ("parameters", Some px)] \/
+       exists psn psz l, all_of (wsh (t_auth_rsp T)) l /\
+         v = VStruct_ (TyN "Response") [("tag", Some (VInt_ tagn tagz)); ("responseSize", Some (VInt_ szn szz)); ("responseCode", Some (VInt_ rcn rc));
+                                         ("handles", Some hx); ("parameterSize", Some (VInt_ psn psz)); ("parameters", Some px);
+                                         ("authorizationArea", Some (VList_ l))]).
 
 Section MsgObj.
   Variable T : tables.
@@ -278,44 +350,45 @@ Section MsgObj.
   Qed.
 
   (** the size-governed session list *)
-  Lemma sstep_obj f body cid mx pa : O_run f body ->
+  Lemma sstep_obj f W body cid mx pa : O_run f W body ->
     forall n i acc s tr s' r, iter n (sstep body cid mx pa) (i, acc) s = (tr, s', Ok r) ->
-    exists xs, snd r = map Some (rev xs) ++ acc /\ evs_of tr = oe_elems f pa xs i.
+    exists xs, snd r = map Some (rev xs) ++ acc /\ all_of W xs /\ evs_of tr = oe_elems f pa xs i.
   Proof.
     intros Hb. induction n as [|n IHn]; intros i acc s tr s' r E; cbn [iter] in *.
-    - injection E as <- _ <-. exists []. split; reflexivity.
+    - injection E as <- _ <-. exists []. split; [reflexivity|]. split; [exact Logic.I|reflexivity].
     - binv E tr1 s1 st1 X1. destruct st1 as [i1 acc1]. unfold sstep in X1. rewrite bind_get in X1.
       destruct (_ <? mx).
       + binv X1 tr3 s3 v X3. injection X1 as <- _ <- <-. cbn [fst snd] in *.
-        destruct (Hb _ _ _ _ _ X3) as (x & -> & Hx).
-        destruct (IHn _ _ _ _ _ _ E) as (xs & Hr & Hxs).
-        exists (x :: xs). split; [rewrite Hr; cbn [rev]; rewrite map_app, <- app_assoc; reflexivity|].
+        destruct (Hb _ _ _ _ _ X3) as (x & -> & Wx & Hx).
+        destruct (IHn _ _ _ _ _ _ E) as (xs & Hr & Wxs & Hxs).
+        exists (x :: xs). split; [rewrite Hr; cbn [rev]; rewrite map_app, <- app_assoc; reflexivity|]. split; [split; assumption|].
         rewrite !evs_app, Hx, Hxs. cbn [evs_of oe_elems]. rewrite app_nil_r. reflexivity.
-      + injection X1 as <- _ <- <-. destruct (IHn _ _ _ _ _ _ E) as (xs & Hr & Hxs). exists xs. split; [exact Hr|exact Hxs].
+      + injection X1 as <- _ <- <-. destruct (IHn _ _ _ _ _ _ E) as (xs & Hr & Wxs & Hxs). exists xs. split; [exact Hr|]. split; [exact Wxs|exact Hxs].
   Qed.
 
-  Lemma sized_obj f body lid pa cid s tr s' a : O_run f body ->
+  Lemma sized_obj f W body lid pa cid s tr s' a : O_run f W body ->
     dec_sized_array true lid pa cid body s = (tr, s', Ok a) ->
-    exists l, a = Some (VList_ l) /\ evs_of tr = oe_list lid f pa (VList_ l).
+    exists l, a = Some (VList_ l) /\ all_of W l /\ evs_of tr = oe_list lid f pa (VList_ l).
   Proof.
     intros Hb E. unfold dec_sized_array in E. binv E tr1 s1 u1 X1. injection X1 as <- <- <-. rewrite bind_get in E.
     destruct (sc_max _) as [mx|]; [|discriminate]. rewrite catch_true in E. binv E tr3 s3 r X3.
     rewrite bind_get in E. destruct (_ <? mx); [discriminate|]. binv E tr4 s4 u4 X4. pose proof (quiet_assert_done _ _ _ _ _ X4) as ->.
     injection E as <- _ <-.
-    assert (Hloop : exists xs, snd r = map Some (rev xs) ++ [] /\ evs_of tr3 = oe_elems f pa xs 0).
+    assert (Hloop : exists xs, snd r = map Some (rev xs) ++ [] /\ all_of W xs /\ evs_of tr3 = oe_elems f pa xs 0).
     { destruct (mx - _) as [|q|q]; cbn [repZ] in X3.
-      - injection X3 as <- _ <-. exists []. split; reflexivity.
-      - rewrite (rep_iter _ _ q (0, []) s) in X3. apply (sstep_obj f body cid mx pa Hb _ _ _ _ _ _ _ X3).
-      - injection X3 as <- _ <-. exists []. split; reflexivity. }
-    destruct Hloop as (xs & Hr & Hx). exists xs. unfold listval. rewrite Hr, app_nil_r, <- map_rev, rev_involutive, map_map.
-    split; [rewrite map_id; reflexivity|]. unfold sev. cbn [app evs_of]. rewrite !app_nil_r, Hx. reflexivity.
+      - injection X3 as <- _ <-. exists []. split; [reflexivity|]. split; [exact Logic.I|reflexivity].
+      - rewrite (rep_iter _ _ q (0, []) s) in X3. apply (sstep_obj f W body cid mx pa Hb _ _ _ _ _ _ _ X3).
+      - injection X3 as <- _ <-. exists []. split; [reflexivity|]. split; [exact Logic.I|reflexivity]. }
+    destruct Hloop as (xs & Hr & Wxs & Hx). exists xs. unfold listval. rewrite Hr, app_nil_r, <- map_rev, rev_involutive, map_map.
+    split; [rewrite map_id; reflexivity|]. split; [exact Wxs|]. unfold sev. cbn [app evs_of]. rewrite !app_nil_r, Hx. reflexivity.
   Qed.
 
   (** a parameter area, with or without the opaque first parameter *)
-  Lemma params_obj pty enc : named_ty pty = true -> O_run (oe_ty T pty) (fun pa => dec_ty T true pty pa None enc).
+  Lemma params_obj pty enc : named_ty pty = true -> O_run (oe_ty T pty) (wshp T pty) (fun pa => dec_ty T true pty pa None enc).
   Proof.
     intros Hn pa' s tr s' a E.
-    assert (Plain : O_run (oe_ty T pty) (fun pa => dec_ty T true pty pa None false)) by (apply (proj1 (obj_all T) pty Hn None)).
+    assert (Plain : O_run (oe_ty T pty) (wshp T pty) (fun pa => dec_ty T true pty pa None false)).
+    { intros pa0 s0 tr0 s0' a0 E0. destruct (proj1 (obj_all T) pty Hn None _ _ _ _ _ E0) as (v & -> & Wv & Hv). exists v. split; [reflexivity|]. split; [left; exact Wv|exact Hv]. }
     destruct pty as [p|name isp fs|name szf buf szp el|name szf buf szp inner|name ar]; try exact (Plain _ _ _ _ _ E).
     destruct (enc && isp && first_is_tpm2b fs) eqn:UE.
     - destruct fs as [|n t r|n el r|n sl u r]; try (cbn [first_is_tpm2b] in UE; rewrite andb_false_r in UE; discriminate).
@@ -327,10 +400,11 @@ Section MsgObj.
       destruct (t_enc_param T) as [| |ename eszf ebuf eszp [ep| | | |]| |] eqn:Et; try discriminate.
       cbn [named_ty] in Hne. apply andb_prop in Hne as [Hne _].
       assert (Hfb : String.eqb eszf ebuf = false) by (destruct (String.eqb eszf ebuf); [discriminate|reflexivity]).
-      destruct (tpm2b_list_obj ename eszf ebuf eszp (TyList (pname ep)) oe_leaf (dec_prim true ep) (pchild pa' n) s tr5 s5 ev
-                  ltac:(intros q s0 t0 s0' a0 E0; destruct (dec_prim_obj _ _ _ _ _ _ E0) as (z & -> & Hz); eexists; split; [reflexivity|exact Hz])
-                  Hfb X5) as (szv & l & -> & Hev).
-      destruct (proj1 (proj2 (obj_all T)) r Hnr pa' _ s5 _ s3 vals X3) as (new & -> & Hf & Hv).
+      destruct (tpm2b_list_obj ename eszf ebuf eszp (TyList (pname ep)) oe_leaf (wsh (TPrim ep)) (dec_prim true ep) (pchild pa' n) s tr5 s5 ev
+                  ltac:(intros q s0 t0 s0' a0 E0; destruct (dec_prim_obj _ _ _ _ _ _ E0) as (z & -> & Hz); eexists; split; [reflexivity|split; [exists z; reflexivity|exact Hz]])
+                  Hfb X5) as (szz & l & -> & Wl & Hev).
+      destruct (proj1 (proj2 (obj_all T)) r Hnr pa' _ s5 _ s3 vals X3) as (new & -> & Hf & Wf & Hv).
+      set (szv := VInt_ (pname eszp) szz) in *.
       set (x0 := VStruct_ (TyN ename) [(eszf, Some szv); (ebuf, Some (VList_ l))]) in *.
       set (V := rev (new ++ [(n, Some x0)])).
       assert (HND : NoDup (map fst V)).
@@ -343,7 +417,9 @@ Section MsgObj.
         replace (String.eqb ebuf eszf) with false by (rewrite String.eqb_sym; symmetry; exact Hfb). rewrite String.eqb_refl. reflexivity. }
       assert (Hrest : evs_of tr = oe_fields T r V pa').
       { apply Hv. intros m o Hi. apply (lookup_nodup _ m o HND). unfold V. apply in_rev. rewrite rev_involutive. apply in_or_app. left. exact Hi. }
-      exists (VStruct_ (TyEnc name) V). split; [reflexivity|]. unfold sev. cbn [app evs_of]. rewrite !app_nil_r, !evs_app, <- Henc, Hrest.
+      exists (VStruct_ (TyEnc name) V). split; [reflexivity|].
+      split; [right; unfold enc_shape; rewrite Et; exists szz, l, (rev new); split; [unfold V; rewrite rev_app_distr; reflexivity|split; assumption]|].
+      unfold sev. cbn [app evs_of]. rewrite !app_nil_r, !evs_app, <- Henc, Hrest.
       change (oe_ty T (TStruct name isp (FPlain n t r)) (VStruct_ (TyEnc name) V) pa')
         with (ev_node pa' (TyEnc name) :: (match lookupS n V with Some (Some x) => oe_enc_param T x (pchild pa' n) | _ => [ev_node (pchild pa' n) (ty_id (t_enc_param T))] end) ++ oe_fields T r V pa').
       rewrite Hl0. reflexivity.
@@ -359,18 +435,18 @@ Section MsgObj.
 
   Lemma cmd_params_obj pa cid aid cc vl area enc s tr s' res :
     cmd_params_step T true pa cid aid cc vl area enc s = (tr, s', Ok res) ->
-    exists pty pv, lookupZ cc (cmd_params T) = Some pty /\ cr_obj res = cmd_obj (("parameters", Some pv) :: vl) /\
+    exists pty pv, lookupZ cc (cmd_params T) = Some pty /\ cr_obj res = cmd_obj (("parameters", Some pv) :: vl) /\ wshp T pty pv /\
                    evs_of tr = oe_ty T pty pv (pchild pa "parameters").
   Proof.
     intros E. unfold cmd_params_step in E. destruct (lookupZ cc (cmd_params T)) as [pty|] eqn:Lp; [|discriminate].
     rewrite try_field_strict in E. binv E tr1 s1 pv X1.
-    destruct (params_obj pty enc (area_named cc pty ltac:(right; left; exact Lp)) _ _ _ _ _ X1) as (v & -> & Hv).
+    destruct (params_obj pty enc (area_named cc pty ltac:(right; left; exact Lp)) _ _ _ _ _ X1) as (v & -> & Wv & Hv).
     binv E tr2 s2 u2 X2. pose proof (quiet_assert_done _ _ _ _ _ X2) as ->. injection E as <- _ <-.
-    exists pty, v. split; [reflexivity|]. split; [reflexivity|]. rewrite !app_nil_r. exact Hv.
+    exists pty, v. split; [reflexivity|]. split; [reflexivity|]. split; [exact Wv|]. rewrite !app_nil_r. exact Hv.
   Qed.
 
   (** C11 for commands *)
-  Theorem command_obj pa s tr s' res : dec_command T true pa s = (tr, s', Ok res) -> evs_of tr = oe_command T (cr_obj res) pa.
+  Theorem command_obj pa s tr s' res : dec_command T true pa s = (tr, s', Ok res) -> evs_of tr = oe_command T (cr_obj res) pa /\ cmd_shape T (cr_obj res).
   Proof.
     intros E. unfold dec_command in E.
     binv E tr1 s1 cid X1. injection X1 as <- _ _. binv E tr2 s2 aid X2. injection X2 as <- _ _.
@@ -381,23 +457,27 @@ Section MsgObj.
     rewrite try_field_strict in E. binv E tr8 s8 ccv X8. destruct (dec_prim_obj _ _ _ _ _ _ X8) as (cc & -> & H8).
     cbn [as_int] in E. destruct (lookupZ cc (cmd_handles T)) as [hty|] eqn:Lh; [|discriminate].
     rewrite try_field_strict in E. binv E tr9 s9 hv X9.
-    destruct (proj1 (obj_all T) hty (area_named cc hty ltac:(left; exact Lh)) None _ _ _ _ _ X9) as (hx & -> & H9).
+    destruct (proj1 (obj_all T) hty (area_named cc hty ltac:(left; exact Lh)) None _ _ _ _ _ X9) as (hx & -> & W9 & H9).
     destruct (tagz =? st_sessions T).
     - rewrite try_field_strict in E. binv E tr10 s10 asv X10. destruct (dec_prim_obj _ _ _ _ _ _ X10) as (asz & -> & H10).
       cbv zeta in E. cbn [as_int] in E. binv E tr11 s11 u11 X11. pose proof (quiet_set_constraint _ _ _ _ _ _ _ X11) as ->.
       binv E tr12 s12 u12 X12. injection X12 as <- _ _.
       rewrite try_field_strict in E. binv E tr13 s13 area X13.
-      destruct (sized_obj (oe_ty T (t_auth_cmd T)) (fun p => dec_ty T true (t_auth_cmd T) p None false) _ _ _ _ _ _ _
-                  (proj1 (obj_all T) _ auth_named_cmd None) X13) as (l & -> & H13).
+      destruct (sized_obj (oe_ty T (t_auth_cmd T)) (wsh (t_auth_cmd T)) (fun p => dec_ty T true (t_auth_cmd T) p None false) _ _ _ _ _ _ _
+                  (proj1 (obj_all T) _ auth_named_cmd None) X13) as (l & -> & W13 & H13).
       cbv zeta in E. destruct (is_param_enc _ _ _) as [enc|]; [|discriminate].
-      destruct (cmd_params_obj _ _ _ _ _ _ _ _ _ _ _ E) as (pty & pv & Lp & -> & Hp).
-      unfold sev. cbn [app evs_of]. rewrite !evs_app, H5, H6, H8, H9, H10, H13, Hp. cbn [evs_of app].
-      unfold oe_command, cmd_obj, oe_req, oe_opt. cbn [rev app lookupS String.eqb Ascii.eqb Bool.eqb as_int oe_leaf]. rewrite Lh, Lp.
-      rewrite ?app_nil_r, <- ?app_assoc. reflexivity.
-    - destruct (cmd_params_obj _ _ _ _ _ _ _ _ _ _ _ E) as (pty & pv & Lp & -> & Hp).
-      unfold sev. cbn [app evs_of]. rewrite !evs_app, H5, H6, H8, H9, Hp. cbn [evs_of app].
-      unfold oe_command, cmd_obj, oe_req, oe_opt. cbn [rev app lookupS String.eqb Ascii.eqb Bool.eqb as_int oe_leaf]. rewrite Lh, Lp.
-      rewrite ?app_nil_r, <- ?app_assoc. reflexivity.
+      destruct (cmd_params_obj _ _ _ _ _ _ _ _ _ _ _ E) as (pty & pv & Lp & -> & Wp & Hp). split.
+      + unfold sev. cbn [app evs_of]. rewrite !evs_app, H5, H6, H8, H9, H10, H13, Hp. cbn [evs_of app].
+        unfold oe_command, cmd_obj, oe_req, oe_opt. cbn [rev app lookupS String.eqb Ascii.eqb Bool.eqb as_int oe_leaf]. rewrite Lh, Lp.
+        rewrite ?app_nil_r, <- ?app_assoc. reflexivity.
+      + unfold cmd_shape, cmd_obj. cbn [rev app]. do 10 eexists. split; [exact Lh|]. split; [exact Lp|]. split; [exact W9|]. split; [exact Wp|].
+        right. do 3 eexists. split; [exact W13|reflexivity].
+    - destruct (cmd_params_obj _ _ _ _ _ _ _ _ _ _ _ E) as (pty & pv & Lp & -> & Wp & Hp). split.
+      + unfold sev. cbn [app evs_of]. rewrite !evs_app, H5, H6, H8, H9, Hp. cbn [evs_of app].
+        unfold oe_command, cmd_obj, oe_req, oe_opt. cbn [rev app lookupS String.eqb Ascii.eqb Bool.eqb as_int oe_leaf]. rewrite Lh, Lp.
+        rewrite ?app_nil_r, <- ?app_assoc. reflexivity.
+      + unfold cmd_shape, cmd_obj. cbn [rev app]. do 10 eexists. split; [exact Lh|]. split; [exact Lp|]. split; [exact W9|]. split; [exact Wp|].
+        left. reflexivity.
   Qed.
 
   Lemma rsp_finish_quiet rid v s tr s' a : rsp_finish true rid v s = (tr, s', Ok a) -> tr = [] /\ a = rsp_obj v.
@@ -408,7 +488,7 @@ Section MsgObj.
   Qed.
 
   (** C11 for responses *)
-  Theorem response_obj pa cc enc s tr s' v : dec_response T true pa cc enc s = (tr, s', Ok v) -> evs_of tr = oe_response T cc v pa.
+  Theorem response_obj pa cc enc s tr s' v : dec_response T true pa cc enc s = (tr, s', Ok v) -> evs_of tr = oe_response T cc v pa /\ rsp_shape T cc v.
   Proof.
     intros E. unfold dec_response in E.
     binv E tr1 s1 rid X1. injection X1 as <- _ _. binv E tr2 s2 pid X2. injection X2 as <- _ _.
@@ -419,38 +499,43 @@ Section MsgObj.
     rewrite try_field_strict in E. binv E tr8 s8 rcv X8. destruct (dec_prim_obj _ _ _ _ _ _ X8) as (rc & -> & H8).
     cbn [as_int] in E.
     destruct (negb (rc =? rc_success T)).
-    { destruct (rsp_finish_quiet _ _ _ _ _ _ E) as [-> ->].
-      unfold sev. cbn [app evs_of]. rewrite !evs_app, H5, H6, H8. cbn [evs_of app].
-      unfold oe_response, rsp_obj, oe_req, oe_opt. cbn [rev app lookupS String.eqb Ascii.eqb Bool.eqb oe_leaf]. reflexivity. }
+    { destruct (rsp_finish_quiet _ _ _ _ _ _ E) as [-> ->]. split.
+      - unfold sev. cbn [app evs_of]. rewrite !evs_app, H5, H6, H8. cbn [evs_of app].
+        unfold oe_response, rsp_obj, oe_req, oe_opt. cbn [rev app lookupS String.eqb Ascii.eqb Bool.eqb oe_leaf]. reflexivity.
+      - unfold rsp_shape, rsp_obj. cbn [rev app]. do 6 eexists. left. reflexivity. }
     destruct cc as [c|]; [|discriminate].
     destruct (lookupZ c (rsp_handles T)) as [hty|] eqn:Lh; [|discriminate].
     rewrite try_field_strict in E. binv E tr9 s9 hv X9. cbv zeta in E.
-    destruct (params_obj hty enc (area_named c hty ltac:(right; right; left; exact Lh)) _ _ _ _ _ X9) as (hx & -> & H9).
+    destruct (params_obj hty enc (area_named c hty ltac:(right; right; left; exact Lh)) _ _ _ _ _ X9) as (hx & -> & W9 & H9).
     destruct (tagz =? st_sessions T).
     - rewrite try_field_strict in E. binv E tr10 s10 psv X10. destruct (dec_prim_obj _ _ _ _ _ _ X10) as (psz & -> & H10).
       cbn [as_int] in E. binv E tr11 s11 u11 X11. pose proof (quiet_set_constraint _ _ _ _ _ _ _ X11) as ->.
       binv E tr12 s12 u12 X12. injection X12 as <- _ _.
       unfold rsp_rest in E. destruct (lookupZ c (rsp_params T)) as [pty|] eqn:Lp; [|discriminate].
       rewrite try_field_strict in E. binv E tr13 s13 pv X13. cbv zeta in E.
-      destruct (params_obj pty enc (area_named c pty ltac:(right; right; right; exact Lp)) _ _ _ _ _ X13) as (px & -> & H13).
+      destruct (params_obj pty enc (area_named c pty ltac:(right; right; right; exact Lp)) _ _ _ _ _ X13) as (px & -> & W13 & H13).
       binv E tr14 s14 u14 X14. pose proof (quiet_assert_done _ _ _ _ _ X14) as ->.
       rewrite try_field_strict in E. binv E tr15 s15 area X15.
-      destruct (sized_obj (oe_ty T (t_auth_rsp T)) (fun p => dec_ty T true (t_auth_rsp T) p None false) _ _ _ _ _ _ _
-                  (proj1 (obj_all T) _ auth_named_rsp None) X15) as (l & -> & H15).
+      destruct (sized_obj (oe_ty T (t_auth_rsp T)) (wsh (t_auth_rsp T)) (fun p => dec_ty T true (t_auth_rsp T) p None false) _ _ _ _ _ _ _
+                  (proj1 (obj_all T) _ auth_named_rsp None) X15) as (l & -> & W15 & H15).
       destruct (is_param_enc _ _ _) as [e|]; [|discriminate].
       binv E tr16 s16 u16 X16. assert (tr16 = []) as -> by (destruct (Bool.eqb e enc); [injection X16 as <- _ _; reflexivity|discriminate]).
-      destruct (rsp_finish_quiet _ _ _ _ _ _ E) as [-> ->].
-      unfold sev. cbn [app evs_of]. rewrite !evs_app, H5, H6, H8, H9, H10, H13, H15. cbn [evs_of app].
-      unfold oe_response, rsp_obj, oe_req, oe_opt. cbn [rev app lookupS String.eqb Ascii.eqb Bool.eqb oe_leaf]. rewrite Lh, Lp.
-      rewrite ?app_nil_r, <- ?app_assoc. reflexivity.
+      destruct (rsp_finish_quiet _ _ _ _ _ _ E) as [-> ->]. split.
+      + unfold sev. cbn [app evs_of]. rewrite !evs_app, H5, H6, H8, H9, H10, H13, H15. cbn [evs_of app].
+        unfold oe_response, rsp_obj, oe_req, oe_opt. cbn [rev app lookupS String.eqb Ascii.eqb Bool.eqb oe_leaf]. rewrite Lh, Lp.
+        rewrite ?app_nil_r, <- ?app_assoc. reflexivity.
+      + unfold rsp_shape, rsp_obj. cbn [rev app]. do 6 eexists. right. do 5 eexists. split; [reflexivity|]. split; [exact Lh|]. split; [exact Lp|].
+        split; [exact W9|]. split; [exact W13|]. right. do 3 eexists. split; [exact W15|reflexivity].
     - unfold rsp_rest in E. destruct (lookupZ c (rsp_params T)) as [pty|] eqn:Lp; [|discriminate].
       rewrite try_field_strict in E. binv E tr13 s13 pv X13. cbv zeta in E.
-      destruct (params_obj pty enc (area_named c pty ltac:(right; right; right; exact Lp)) _ _ _ _ _ X13) as (px & -> & H13).
+      destruct (params_obj pty enc (area_named c pty ltac:(right; right; right; exact Lp)) _ _ _ _ _ X13) as (px & -> & W13 & H13).
       binv E tr14 s14 u14 X14. injection X14 as <- _ _.
-      destruct (rsp_finish_quiet _ _ _ _ _ _ E) as [-> ->].
-      unfold sev. cbn [app evs_of]. rewrite !evs_app, H5, H6, H8, H9, H13. cbn [evs_of app].
-      unfold oe_response, rsp_obj, oe_req, oe_opt. cbn [rev app lookupS String.eqb Ascii.eqb Bool.eqb oe_leaf]. rewrite Lh, Lp.
-      rewrite ?app_nil_r, <- ?app_assoc. reflexivity.
+      destruct (rsp_finish_quiet _ _ _ _ _ _ E) as [-> ->]. split.
+      + unfold sev. cbn [app evs_of]. rewrite !evs_app, H5, H6, H8, H9, H13. cbn [evs_of app].
+        unfold oe_response, rsp_obj, oe_req, oe_opt. cbn [rev app lookupS String.eqb Ascii.eqb Bool.eqb oe_leaf]. rewrite Lh, Lp.
+        rewrite ?app_nil_r, <- ?app_assoc. reflexivity.
+      + unfold rsp_shape, rsp_obj. cbn [rev app]. do 6 eexists. right. do 5 eexists. split; [reflexivity|]. split; [exact Lh|]. split; [exact Lp|].
+        split; [exact W9|]. split; [exact W13|]. left. reflexivity.
   Qed.
 End MsgObj.
 
@@ -468,9 +553,17 @@ Definition root_named (T : tables) (r : root) : Prop :=
 
 (** C11 (model): whenever strict decoding accepts an input, the object it returns, turned back into events, is the
     decoded event list - same length, paths, declared types, values *)
-Theorem decoded_object_reproduces_events T r bs evs : msg_named T = true -> root_named T r -> is_stream_root r = false ->
+Definition root_shape (T : tables) (r : root) (v : value) : Prop :=
+  match r with
+  | RType t => wsh t v
+  | RCommand => cmd_shape T v
+  | RResponse cc _ => rsp_shape T cc v
+  | RStream => False
+  end.
+
+Theorem decoded_object_shape T r bs evs : msg_named T = true -> root_named T r -> is_stream_root r = false ->
   decode T true r bs = (evs, OAccepted) ->
-  exists v, decode_obj T true r bs = Some v /\ map fst evs = map Ev (obj_to_events T r v).
+  exists v, decode_obj T true r bs = Some v /\ map fst evs = map Ev (obj_to_events T r v) /\ root_shape T r v.
 Proof.
   intros Hn Hr Hs D. unfold decode, pump in D. rewrite Hs in D. unfold decode_obj.
   destruct (dec_root T true r (init_st bs)) as [[tr s'] o] eqn:E.
@@ -481,12 +574,19 @@ Proof.
   { rewrite <- (filter_events tr Q), <- F. destruct o as [a|e| |k|]; try discriminate.
     destruct (skipZ bs (ps_nrd ps)); [injection D as <-; reflexivity|discriminate]. }
   destruct o as [a|e| |k|]; try discriminate.
-  rewrite Hev. destruct r as [t| |cc enc|]; try discriminate; cbn [dec_root obj_to_events] in *.
+  rewrite Hev. destruct r as [t| |cc enc|]; try discriminate; cbn [dec_root obj_to_events root_shape] in *.
   - unfold bind in E. cbn [set_lst] in E. destruct (dec_ty T true t root_path None false _) as [[tr1 s1] o1] eqn:E1.
     destruct o1 as [a1|e1| |k1|]; try discriminate. injection E as <- _ <-.
-    destruct (proj1 (obj_all T) t Hr None _ _ _ _ _ E1) as (v & -> & Hv). exists v. split; [reflexivity|]. cbn [app]. rewrite Hv. reflexivity.
+    destruct (proj1 (obj_all T) t Hr None _ _ _ _ _ E1) as (v & -> & Wv & Hv). exists v. split; [reflexivity|]. split; [|exact Wv]. cbn [app]. rewrite Hv. reflexivity.
   - binv E tr1 s1 res X1. injection E as <- _ <-. exists (cr_obj res). split; [reflexivity|].
-    rewrite app_nil_r, (command_obj T Hn _ _ _ _ _ X1). reflexivity.
+    destruct (command_obj T Hn _ _ _ _ _ X1) as [H1 H2]. split; [|exact H2]. rewrite app_nil_r, H1. reflexivity.
   - binv E tr1 s1 v X1. injection E as <- _ <-. exists v. split; [reflexivity|].
-    rewrite app_nil_r, (response_obj T Hn _ _ _ _ _ _ _ X1). reflexivity.
+    destruct (response_obj T Hn _ _ _ _ _ _ _ X1) as [H1 H2]. split; [|exact H2]. rewrite app_nil_r, H1. reflexivity.
+Qed.
+
+Theorem decoded_object_reproduces_events T r bs evs : msg_named T = true -> root_named T r -> is_stream_root r = false ->
+  decode T true r bs = (evs, OAccepted) ->
+  exists v, decode_obj T true r bs = Some v /\ map fst evs = map Ev (obj_to_events T r v).
+Proof.
+  intros Hn Hr Hs D. destruct (decoded_object_shape T r bs evs Hn Hr Hs D) as (v & H1 & H2 & _). exists v. split; assumption.
 Qed.
